@@ -11,18 +11,13 @@ NEUTRAL_CALLS = {"len", "isinstance", "str", "type", "repr", "print", "bool"}
 
 
 def head_aliases(node: ast.AST, var_src: str) -> Set[str]:
-    """local names bound to <var>[0] (possibly lower-cased / stripped), e.g. `node_head = node[0]`"""
+    """local names bound to <var>[0] (possibly lower-cased / stripped), e.g. `node_head = node[0]` or `head, rest = node[0], node[1:]`"""
     out: Set[str] = set()
-    for n in ast.walk(node):
-        if isinstance(n, (ast.Assign, ast.AnnAssign)) and n.value is not None:
-            v = n.value
-            while isinstance(v, ast.Call) and isinstance(v.func, ast.Attribute) and v.func.attr in ("lower", "strip") and not v.args:
-                v = v.func.value
-            if isinstance(v, ast.Subscript) and isinstance(v.slice, ast.Constant) and v.slice.value == 0 and ast.unparse(v.value) == var_src:
-                tgts = n.targets if isinstance(n, ast.Assign) else [n.target]
-                for t in tgts:
-                    if isinstance(t, ast.Name):
-                        out.add(t.id)
+    for name, v, _st in C.simple_bindings(node):
+        while isinstance(v, ast.Call) and isinstance(v.func, ast.Attribute) and v.func.attr in ("lower", "strip") and not v.args:
+            v = v.func.value
+        if isinstance(v, ast.Subscript) and isinstance(v.slice, ast.Constant) and v.slice.value == 0 and ast.unparse(v.value) == var_src:
+            out.add(name)
     return out
 
 
